@@ -275,15 +275,15 @@ def run(ctx):
     # ---------------- (c) line statements, (d) line comments
     # two delimiter families: the default one with # / ##, and one whose END strings do not start with an operator
     # character (<? ?> <?= ?> <!-- --> with % / %%)
-    lcs = [L.Cfg("line", True, True), L.Cfg("phpline", True, True)]
+    lcs = [L.Cfg("line", True, True), L.Cfg("phpline", True, True), L.Cfg("latex", True, True)]
     pairs = []
     for with_comments in (False, True):
         for _ in range(ctx.size(4000, 25000)):
             lines = gen_lines(ctx.rng, with_comments)
             # "not followed by blank lines": generator emits no empty text lines
             fin = ctx.rng.random() < 0.5
-            lc = lcs[0] if ctx.rng.random() < 0.6 else lcs[1]
-            if lc.name == "phpline":
+            lc = lcs[0] if ctx.rng.random() < 0.5 else ctx.rng.choice(lcs[1:])
+            if lc.name != "line":
                 lines = [(k_, i_, p_.replace("%", "pct").replace("<", "lt")) if k_ == "text" else (k_, i_, p_) for k_, i_, p_ in lines]
             pairs.append((with_comments, write_lines(lines, False, fin, lc), write_lines(lines, True, fin, lc), lc))
     mruns = L.model_runs(ctx, [(p[3], p[1]) for p in pairs] + [(p[3], p[2]) for p in pairs])
@@ -448,7 +448,7 @@ def run_expr_delims(ctx, jinja2, settings):
     balancing stack decides where a tag ends, e.g. '}' as variable end), strings containing every set's
     delimiters, filters, attribute / item access; context values of several kinds; all routes sampled"""
     from markupsafe import Markup
-    names = ["default", "angle", "dollar", "asp", "linepct", "phpline"]
+    names = ["default", "angle", "dollar", "asp", "linepct", "phpline", "latex", "paren"]
     datas = [dict(x="xs", m={"a": 1}, n=1, t=("p", "q")), dict(x=Markup("<b>"), m=_NS(), n=True, t=["p", "q"]),
              dict(x=L._S("sub"), m={"a": [1]}, n=1.0, t=iter(["p", "q"]))]
     for j in range(ctx.size(1000, 12000)):
